@@ -28,5 +28,10 @@ def tasks(ctx):
     return filter_tasks([Task(f, f) for f in FUNCS])
 
 
+# components whose representation invariants the lemmas above assume in every reachable state (engine/closure.py adds
+# the preservation obligations of all their functions)
+tasks.invariant_packages = ('timer',)
+
+
 def run(tier, seed):
     return run_property("C12", tasks, "proof", tier, seed, ASSUME, TRUSTED)
